@@ -125,12 +125,14 @@ def check(spec):
     n = len(opu.c)
     if len(opf.c) != n or len(x0) != n:
         return out.fail("problem size changes with fix_time_window: %d vs %d" % (len(opf.c), n))
+    if n == 0:
+        return out.drop("empty_problem")
     mp = opu.mapping
     steps_of = {}
     for i, t in zip(mp.index.values.astype(int), mp["time_step"].values.astype(int)):
         steps_of.setdefault(i, set()).add(int(t))
-    pinned = np.array([any(win[t] for t in steps_of.get(j, ())) for j in range(n)])
-    multi = np.array([len(mp.loc[[j]]) > 1 if j in steps_of else False for j in range(n)])
+    pinned = np.array([any(win[t] for t in steps_of.get(j, ())) for j in range(n)], dtype=bool)
+    multi = np.array([len(mp.loc[[j]]) > 1 if j in steps_of else False for j in range(n)], dtype=bool)
     lf, uf = np.asarray(opf.l, float), np.asarray(opf.u, float)
     lu, uu = np.asarray(opu.l, float), np.asarray(opu.u, float)
     bad = np.where(pinned & ((lf != x0) | (uf != x0)))[0]
